@@ -47,7 +47,7 @@ theorem putLeaf_step {H : List Lk} {hole : Option Nat} {t : Tree K V} (hok : Tre
   have hf' : (putLeaf t l').flat = L ++ [(l'.id, shallow (d := 0) l')] ++ R := hf'
   have hmem : ((l : Leaf K V).id, shallow (d := 0) l) ∈ t.flat := by rw [hf]; simp
   have hocc := hok.occ _ hmem
-  refine ⟨⟨⟨?_, ?_, ?_, ?_, ?_⟩, ?_, ?_, Or.inr ⟨hroot, hdepth⟩, hord⟩, ?_⟩
+  refine ⟨⟨⟨?_, ?_, ?_, ?_, ?_, ?_⟩, ?_, ?_, Or.inr ⟨hroot, hdepth⟩, hord⟩, ?_⟩
   · refine ids_surgery (F := []) hok.ids hf hf' ?_ List.nodup_nil (by simp) (by omega)
     show List.Perm [l'.id] ([] ++ [l.id])
     rw [hid]; exact List.Perm.refl _
@@ -64,7 +64,8 @@ theorem putLeaf_step {H : List Lk} {hole : Option Nat} {t : Tree K V} (hok : Tre
     rw [chainView_cons_leaf _ _ _ rfl, chainView_cons_leaf _ _ _ rfl]
     show [(l.id, l.next)] = [(l'.id, l'.next)]
     rw [hid, hnext]
-  · rw [hord]; exact hok.order4
+  · rw [hord]; exact hok.order2
+  · rw [hord]; exact hok.big
   · rw [hord]; exact hok.even
   · rw [hf, hf']
     apply FrameEq.context
